@@ -14,6 +14,9 @@ args = sys.argv[1:]
 wt = "--worktree" in args
 if wt:
     args.remove("--worktree")
+no_confirm = "--no-confirm" in args
+if no_confirm:
+    args.remove("--no-confirm")
 extra = []
 if "--extra" in args:
     i = args.index("--extra")
@@ -30,7 +33,7 @@ for mid in ids:
     meta = json.load(open(mp))
     props = [meta["breaks_property"]] + [p for p in list(meta.get("checks", {})) + extra if p != meta["breaks_property"]]
     props = list(dict.fromkeys(props))
-    cmd = [os.path.join(VERIF, ".venv/bin/python"), os.path.join(VERIF, "tools/try_mutant.py"), d] + props + (["--worktree"] if wt else [])
+    cmd = [os.path.join(VERIF, ".venv/bin/python"), os.path.join(VERIF, "tools/try_mutant.py"), d] + props + (["--worktree"] if wt else []) + (["--no-confirm"] if no_confirm else [])
     p = subprocess.run(cmd, capture_output=True, text=True)
     try:
         out = json.loads(p.stdout[p.stdout.index("{"):])
@@ -43,12 +46,13 @@ for mid in ids:
         summary.append((mid, "DOES-NOT-APPLY"))
         continue
     meta["repo_commit"] = head
-    meta["confirmed"] = out["confirmed"]
+    if not out.get("confirm_skipped"):
+        meta["confirmed"] = out["confirmed"]
     meta["checks"] = out["checks"]
     meta["detected_by"] = out["detected_by"]
     meta["mode"] = out.get("mode")
     json.dump(meta, open(mp, "w"), indent=1)
-    print(mid, "confirmed" if out["confirmed"] else "NOT-CONFIRMED", "detected by", out["detected_by"], {k: v["wall_s"] for k, v in out["checks"].items()}, flush=True)
+    print(mid, "confirmed" if (out["confirmed"] or out.get("confirm_skipped")) else "NOT-CONFIRMED", "detected by", out["detected_by"], {k: v["wall_s"] for k, v in out["checks"].items()}, flush=True)
     summary.append((mid, out["detected_by"]))
 missed = [m for m, dby in summary if dby in ("ERROR", "DOES-NOT-APPLY") or not dby]
 print("DONE; not detected / problems:", missed)
